@@ -37,3 +37,18 @@ def agnostic_spelling(L, a, o, Lb, ob):
     """C10: the Humdrum pitch occupying, under a G2 clef (bottom line E4 = 'e', two steps above 'c'), the line or space
     that (L, o) occupies under a clef with bottom line (Lb, ob); the accidental is carried over."""
     return spell_by_distance(staff_steps(L, o, Lb, ob) + 2, a)
+
+
+def agn_text(clef_name, s):
+    """the agnostic spelling of the pitch letters s under the clef class clef_name.  In proofs this is an uninterpreted
+    function per clef (its meaning on spellings is established by the lemma callback_meaning on the real converter); natively
+    it is computed from the specification functions."""
+    from pyvc.ghost import symbolic_run, uf_str
+    from contracts.spec_pitch import parse_spell
+    if clef_name is None:
+        return s            # no clef: the converter raises before producing anything (see the raises clause)
+    if symbolic_run():
+        return uf_str('AGN_' + clef_name, s)
+    L, a, o = parse_spell(s)
+    Lb, ob = BOTTOM[clef_name]
+    return agnostic_spelling(L, a, o, Lb, ob)
